@@ -33,6 +33,10 @@ FINDINGS = {
     'DR': dict(env='KF_DR', when=lambda rs: rs['cap'] > 0 and rs['vcpus'] > 1,
                what='buffered channel, several vCPUs: buffered_recv reports "closed" after ONE failed pop (go.h:298-309) although an item was pushed between that pop and its m_closed test: recv() returns false while a value reported sent is still buffered'),
 }
+# When a finding has been repaired in /repo by a "fix:" commit, remove its id here: its as-written model-checking run and its
+# classifier switch are then no longer used, so the failure is reported as a plain VIOLATION if it ever returns.
+# (VERIF_C09_FIXED=F3,LW,... does the same for one run: used to check a patched scratch copy of the repository.)
+ACTIVE = [f for f in ['F3', 'LW', 'CL', 'DR'] if f not in os.environ.get('VERIF_C09_FIXED', '').split(',')]
 # invariant of GoChannel.tla that each as-written deviation must violate
 MC_EXPECT = {'F3': 'DeliveredExactlyOnce', 'LW': 'ReleasedWhenPartnerExists', 'CL': 'ReleasedOnClose', 'DR': 'DrainAfterClose'}
 
@@ -89,10 +93,10 @@ def _first_unexplained(ctx, e, tag):
     return k, e[k - 1], r['accepted']
 
 
-def judge_and_report(ctx, rows, name):
+def judge_and_report(ctx, rows, name, chunk_events=4000, par=8):
     """judge every execution of rows; classify and report rejections.  Returns dict of counters."""
     execs = tracecheck.split_execs(rows)
-    verdict = judge_all(ctx, execs, f'judge_{name}')
+    verdict = judge_all(ctx, execs, f'judge_{name}', chunk_events=chunk_events, par=par)
     rej = [i for i, v in enumerate(verdict) if not v]
     ctx.traces_ok += len(execs) - len(rej)
     stats = {'executions': len(execs), 'rejected': len(rej), 'by_finding': {}, 'by_mode': {}}
@@ -105,17 +109,24 @@ def judge_and_report(ctx, rows, name):
     # which single known-finding switch explains a rejected execution?
     explained = {i: [] for i in rej}
 
-    def with_switch(fid):
-        f = FINDINGS[fid]
-        cand = [i for i in rej if f['when'](execs[i][0])]
+    def with_switch(fids, among=None):
+        cand = [i for i in (rej if among is None else among) if all(FINDINGS[f]['when'](execs[i][0]) for f in fids)]
         if not cand:
-            return fid, [], []
-        return fid, cand, judge_all(ctx, [execs[i] for i in cand], f'kf_{fid}_{name}', env={f['env']: '1'}, par=4)
+            return fids, [], []
+        return fids, cand, judge_all(ctx, [execs[i] for i in cand], f'kf_{"_".join(fids)}_{name}', env={FINDINGS[f]['env']: '1' for f in fids}, par=4)
     with ThreadPoolExecutor(max_workers=4) as ex:
-        for fid, cand, v in ex.map(with_switch, list(FINDINGS)):
+        for fids, cand, v in ex.map(with_switch, [(f,) for f in ACTIVE]):
             for i, ok in zip(cand, v):
                 if ok:
-                    explained[i].append(fid)
+                    explained[i].append(fids[0])
+    # an execution of the buffered channel on several vCPUs may show more than one of the buffered findings
+    multi = tuple(f for f in ('LW', 'CL', 'DR') if f in ACTIVE)
+    left = [i for i in rej if not explained[i]]
+    if len(multi) > 1 and left:
+        fids, cand, v = with_switch(multi, left)
+        for i, ok in zip(cand, v):
+            if ok:
+                explained[i].append('+'.join(fids))
     hits, unexplained = {}, []
     for i in rej:
         if len(explained[i]) >= 1:
@@ -130,11 +141,14 @@ def judge_and_report(ctx, rows, name):
         pm = {}
         for i in idx:
             pm[execs[i][0].get('prim', '?')] = pm.get(execs[i][0].get('prim', '?'), 0) + 1
-        ex = f'{len(idx)} of {len(execs)} recorded execution(s) {pm} are rejected by the channel specification and accepted only with the deviation {FINDINGS[fid]["env"]}; first: mode={rs.get("prim")} cap={rs["cap"]} vcpus={rs["vcpus"]} {rs.get("seq", "")} mask={rs.get("mask")}'
-        if _is_open(ctx, fid):
-            ctx.known(fid, f'{FINDINGS[fid]["what"]} [{ex}; example {rp}]')
+        ex = f'{len(idx)} of {len(execs)} recorded execution(s) {pm} are rejected by the channel specification and accepted only with the deviation {"+".join(FINDINGS[f]["env"] for f in fid.split("+"))}; first: mode={rs.get("prim")} cap={rs["cap"]} vcpus={rs["vcpus"]} {rs.get("seq", "")} mask={rs.get("mask")}'
+        parts = fid.split('+')
+        what = ' // '.join(FINDINGS[f]['what'] for f in parts)
+        if all(_is_open(ctx, f) for f in parts):
+            for f in parts:
+                ctx.known(f, f'{FINDINGS[f]["what"]} [{ex}; example {rp}]')
         else:
-            ctx.violation(f'{ex} :: {FINDINGS[fid]["what"]} :: finding {fid} is not listed as open for C09 in known-findings.json', rp)
+            ctx.violation(f'{ex} :: {what} :: finding {fid} is not listed as open for C09 in known-findings.json', rp)
         if len(ctx.samples) < 8:
             ctx.samples.append({'finding': fid, 'rejected_execution': e[:24]})
     for n, i in enumerate(unexplained):
@@ -167,6 +181,7 @@ MC_T = MC_Q[:4] + [('MC_GoChannel_u_thorough.cfg', 3000, None), ('MC_GoChannel_b
 
 def mc_start(ctx, runs, pool):
     """the small as-written runs one after the other in one thread, the exhaustive ones side by side"""
+    runs = [x for x in runs if x[2] is None or x[2][:2] in ACTIVE]
     small = [x for x in runs if x[2] is not None]
     big = [x for x in runs if x[2] is None]
     w = max(2, 12 // max(len(big), 1))
@@ -231,7 +246,7 @@ def run(ctx):
     T['built'] = round(time.time() - t0, 1)
     # (mode, executions, extra args)
     modes = [('dir', 1000, ['--masks', 'ends']), ('rand', 200, []), ('gate', 5, [])] if quick else \
-            [('dir', 0, ['--masks', 'all']), ('rand', 5000, []), ('gate', 50, [])]
+            [('dir', 0, ['--masks', 'cap0all']), ('rand', 3000, []), ('gate', 25, [])]
     rows = []
     rcs = {}
     for mode, n, extra in modes:
@@ -248,7 +263,7 @@ def run(ctx):
         ctx.samples.append({'mode': mode, 'recorded_execution': ex[min(7, len(ex) - 1)][:30]})
         rows += r
     T['recorded'] = round(time.time() - t0, 1)
-    st = judge_and_report(ctx, rows, 'run')
+    st = judge_and_report(ctx, rows, 'run', chunk_events=4000 if quick else 8000, par=8 if quick else 10)
     st['harness_rc'] = rcs
     st['gates_held'] = sum(1 for r in rows if r.get('e') == 'Gate' and r.get('at') == 'released' and r.get('held'))
     ctx.extra['executions_recorded'] = st['executions']
@@ -257,7 +272,7 @@ def run(ctx):
     mc_collect(ctx, futs)
     T['model_checked'] = round(time.time() - t0, 1)
     ctx.extra['timing_s'] = T
-    for fid in FINDINGS:
+    for fid in ACTIVE:
         if _is_open(ctx, fid) and not any(fid == k for k, _ in ctx.known_hits):
             print(f'NOTE property={ctx.pid} finding {fid} is listed as open but was not hit in this run', flush=True)
     ctx.assumptions = ['sequential consistency in the specification', 'the MPMC ring behaves as an atomic FIFO (C07); mutex, condition variable and semaphore as their abstract objects (C01-C03)',
